@@ -7,6 +7,46 @@ VERIF = os.path.dirname(os.path.dirname(os.path.abspath(__file__)))
 SRC = "/tmp/mut"
 
 NEEDS = {
+ "C06c": "a router loan that leaves strictly more than the quoted payback in the router (a profitable borrower); the surplus then goes to the vault instead of the initiator",
+ "C06d": "a nested loan on the same vault repaid inside the outer loan's callback, followed by a Deposit while the outer loan is still open",
+ "C11c": "a user closing a second position (different unbonding duration) before withdrawing the first",
+ "C11d": "an incentive with a native LP denom and an OpenPosition/ExpandPosition whose attached LP coins are fewer than the stated amount",
+ "C18c": "a vault over a factory/... asset with a cw20 LP token (token_factory_lp = false) instantiated with a positive burn fee",
+ "C18d": "a pair instantiated with fee shares each below 100% whose sum is >= 100% (e.g. 50% + 30% + 20%)",
+ "C17c": "a vault with a token-factory LP denom, withdrawals disabled, and the direct ExecuteMsg::Withdraw{} path (feature osmosis_token_factory for the payout to show)",
+ "C17d": "a cw20-LP 3pool with swaps paused and withdrawals enabled, then a withdrawal through the cw20 send hook",
+ "C19c": "CreatePair for two assets that already have a pair, submitted in the opposite order",
+ "C19d": "vault registry holding prefix-related asset references (uusd / uusdc) and a page boundary on the shorter one",
+ "C16c": "NextLoan called directly with source_vault = the caller's own address and an asset for which the factory has no vault",
+ "C16d": "a vault factory instantiated by an account different from InstantiateMsg.owner",
+ "C10c": "a registered pool holding a pending protocol fee in (0, 1000] when the epoch is created",
+ "C10d": "a router route registered from the distribution asset to itself (round trip) and > 1000 of it in the collector at NewEpoch",
+ "C07c": "a 3pool swap whose ask asset is the pool's third asset",
+ "C07d": "two settled flash loans on the same vault without a fee collection in between",
+ "C08c": "a Bond carrying more than one coin with the declared one first",
+ "C08d": "a user topping up an existing bond of the same denom",
+ "C01c": "pending (uncollected) protocol fees and a PARTIAL withdrawal",
+ "C01d": "a forged Cw20ReceiveMsg{WithdrawLiquidity} sent directly (or through any unrelated cw20) for at most the pool's own locked LP balance",
+ "C04c": "an amplification ramp DOWN in progress and use strictly between start and stop block",
+ "C04d": "swap with protocol fee -> CollectProtocolFees (> 1000) -> a later non-initial deposit",
+ "C05c": "a nested flash loan repaid inside the outer loan's callback, then a Deposit of the borrowed funds while the outer loan is open",
+ "C05d": "a native-asset vault with a cw20 LP token, direct ExecuteMsg::Withdraw{} with one coin of the DEPOSIT denom attached (<= the locked 1000 LP)",
+ "C02c": "a pool holding uncollected protocol fees when QueryMsg::Simulation is asked",
+ "C02d": "ExecuteMsg::Swap with a non-zero native offer and an EMPTY funds list",
+ "C03c": "a skewed stableswap pool and a deposit skewed the same way (balanced pools / equal deposits hide it because D is symmetric)",
+ "C03d": "a stableswap deposit that changes reserve0/reserve1 (e.g. equal amounts into a skewed pool)",
+ "C13c": "ExpandPosition with receiver: Some(other) where the payer holds a different weight of their own",
+ "C13d": "an address with an older unpruned history entry changing its weight in epoch N-1 and the share queried in epoch N",
+ "C12c": "user A claims in epoch E, a flow opens later in E, user B does not claim in E, afterwards A always claims before B; a second flow of the same denom backs the excess",
+ "C12d": "flow asset and flow fee are the same native denom, declared amount larger than the attached coins (attached >= fee + minimum)",
+ "C15c": "a receiver already holding the final asset and a route that under-delivers while previous balance + received >= minimum_receive",
+ "C15d": "a constant-product deposit exactly on the slippage bound on the second asset's side (or tolerance 0 with a proportional deposit)",
+ "C14c": "3pool swap offering the third asset for the second on a pool where assets 1 and 3 differ",
+ "C14d": "non-zero pending vault protocol fees and a share amount where frac(r*balance) < frac(r*fees)",
+ "C20c": "owner UpdateConfig on the fee distributor with a sub-day epoch duration, then NewEpoch within the day",
+ "C20d": "epoch manager instantiated with start_epoch.id != 0 and an Epoch{id} query for a non-current epoch",
+ "C09c": "a claimer whose share exceeds what is left in the epoch (shares summing above 100%), over-weighted bonders claiming first, another funded epoch inside the grace window",
+ "C09d": "grace period raised mid-history so that an already-forwarded epoch re-enters the window, and a bonder who has not claimed past it (two cooperating sites)",
  "C06a": "a borrower contract re-entering the vault with Deposit while exactly one loan is outstanding (LOAN_COUNTER == 1); the pinned test injects counter = 2",
  "C06b": "a vault whose flash-loan and protocol fee shares differ, and a borrower repaying less than the quoted payback amount (all repo fixtures use equal shares)",
  "C07a": "CollectProtocolFees while a pending amount is between 1 and 1000 (existing tests collect far above the threshold or at zero)",
